@@ -40,7 +40,6 @@ _ATTR = (r'''[ \t\r\n\f]+[^ \t\r\n\f"'<>/=\x00]+'''
          r'''(?:[ \t\r\n\f]*=[ \t\r\n\f]*'''
          r'''(?:"[^"]*"|'[^']*'|[^ \t\r\n\f"'=<>`]+))?''')
 _START = re.compile(r'<[A-Za-z][A-Za-z0-9:_-]*(?:%s)*[ \t\r\n\f]*/?>' % _ATTR)
-_END = re.compile(r'</[A-Za-z][A-Za-z0-9:_-]*[ \t\r\n\f]*>')
 
 
 class Report:
